@@ -1,7 +1,7 @@
 CONSTANTS
   FAMILY = "one"
   D = 4
-  NV = 1
+  NV = 2
   DeltaVecs <- DV_std
   Dists <- Dists_two
   Lim2 <- Lim2_none
